@@ -148,7 +148,8 @@ where
             None
         }
         End::Nth(k) | End::Skip(k) => {
-            let k = k as usize;
+            // the top of the range stands for enormous step counts (arithmetic on them must not wrap)
+            let k = if k >= 250 { usize::MAX - (255 - k as usize) } else { k as usize };
             if k >= left {
                 cx.probe("session_nth_past_the_end");
             } else {
